@@ -148,6 +148,9 @@ func (t *Torrent) String() string {
 }
 
 func (t *Torrent) getPiece(pi int) (*piece, error) {
+	if pi < 0 {
+		return nil, fmt.Errorf("invalid piece index %d: negative", pi)
+	}
 	if pi >= len(t.pieces) {
 		return nil, fmt.Errorf("invalid piece index %d: num pieces = %d", pi, len(t.pieces))
 	}
